@@ -287,8 +287,12 @@ def check_total(P, R, f, unq, seen, depth=0):
                 init_ = f.owner_cls.methods['__init__']
                 stored_callable = any(isinstance(st_, ast.Assign) and isinstance(st_.value, ast.Name) and st_.value.id in init_.params
                                       and any(dotted(t_) == f'self.{c.func.attr}' for t_ in st_.targets) for st_ in walk_shallow(init_.node))
-            if stored_callable:
-                pass      # the sink callable handed to the constructor (like the `setitem` / `append` parameters)
+            is_logger = False
+            if isinstance(c.func.value, ast.Name) and c.func.attr in ('debug', 'info', 'warning', 'error', 'exception', 'critical', 'log'):
+                mv_ = T.module_value(f, c.func.value)
+                is_logger = isinstance(mv_, ast.Call) and (dotted(mv_.func) or '').endswith('getLogger')
+            if stored_callable or is_logger:
+                pass      # the sink callable handed to the constructor (like the `setitem` / `append` parameters); logging calls do not raise
             elif c.func.attr not in TOTAL_ATTRS:
                 ok, det = False, f'method `{c.func.attr}` is not in the catalogue of total operations'
         R.ob('C18.b', f, c, ok, detail=det, why='parsing any string whatsoever must not raise')
